@@ -144,6 +144,10 @@ def body(optional, std=True):
     a('    { let b: Box<dyn DynCollect<\'gc>> = Box::new((1u8, String::new())); chkr!(f, "dyn DynCollect (static contents)", &*b, [], [], false); }')
     a('    { let b: Box<dyn Named<\'gc> + \'gc> = Box::new((s[2], w[3])); chk!(f, "Box<dyn Named> via dyn_collect!", b, [s[2]], [w[3]], true); }')
     a('    { let b: Rc<dyn Named<\'gc> + \'gc> = Rc::new(vec![w[4], w[5]]); chk!(f, "Rc<dyn Named> via dyn_collect!", b, [], [w[4], w[5]], true); }')
+    # a RefLock that is mutably borrowed while it is traced must not be skipped silently (the original panics, which re-queues the object)
+    a('    { let g = Gc::new(mc, RefLock::new(s[11])); let guard = g.borrow_mut(mc); let mut rec = Rec { strong: vec![], weak: vec![] };')
+    a('      let r = std::panic::catch_unwind(std::panic::AssertUnwindSafe(|| { Collect::trace(&*g, &mut rec); })); drop(guard);')
+    a('      if r.is_ok() && rec.strong != vec![sa(s[11])] { f.push("RefLock<Gc>/mutably_borrowed: trace returned normally without reporting the pointer held by the borrowed lock".into()); } }')
     # nestings
     a('    chk!(f, "Vec<Option<Gc>>", vec![Some(s[0]), None, Some(s[1])], [s[0], s[1]], [], true);')
     a('    chk!(f, "Option<Vec<GcWeak>>", Some(vec![w[0], w[1]]), [], [w[0], w[1]], true);')
@@ -238,9 +242,9 @@ fn assert_collect<'gc, T: Collect<'gc> + ?Sized>() {}
 NEG = {
     "Cell<Gc>": "Cell<Gc<'gc, u32>>", "RefCell<Gc>": "RefCell<Gc<'gc, u32>>", "Cell<Option<GcWeak>>": "Cell<Option<GcWeak<'gc, u32>>>", "RefCell<Vec<Gc>>": "RefCell<Vec<Gc<'gc, u32>>>",
     "&'gc Gc": "&'gc Gc<'gc, u32>", "&'static Gc<'gc>": "&'static Gc<'gc, u32>", "Static<Gc>": "Static<Gc<'gc, u32>>", "Static<&'gc u8>": "Static<&'gc u8>", "&'gc u8": "&'gc u8",
-    "&mut Gc": "&'gc mut Gc<'gc, u32>", "rc::Weak<Gc>": "std::rc::Weak<Gc<'gc, u32>>", "fn(Gc)": "fn(Gc<'gc, u32>)", "Box<dyn Any>": "Box<dyn std::any::Any>",
+    "&mut Gc": "&'gc mut Gc<'gc, u32>", "rc::Weak<Gc>": "std::rc::Weak<Gc<'gc, u32>>", "sync::Weak<Gc>": "std::sync::Weak<Gc<'gc, u32>>",  
     "Gc<'static> under 'gc": "Gc<'static, u32>", "GcWeak<'static> under 'gc": "GcWeak<'static, u32>", "Mutex<Gc>": "std::sync::Mutex<Gc<'gc, u32>>", "std::cell::OnceCell<Gc>": "std::cell::OnceCell<Gc<'gc, u32>>",
-    "UnsafeCell<Gc>": "std::cell::UnsafeCell<Gc<'gc, u32>>", "*const Gc": "*const Gc<'gc, u32>", "Box<dyn Fn()>": "Box<dyn Fn()>", "String slice ref": "&'gc str",
+    "UnsafeCell<Gc>": "std::cell::UnsafeCell<Gc<'gc, u32>>", "String slice ref": "&'gc str",
     "HashMap hasher holding Gc": "HashMap<u8, u8, H<'gc>>", "HashSet hasher holding Gc": "HashSet<u8, H<'gc>>", "HashMap<Gc,u8> hasher holding Gc": "HashMap<Gc<'gc, u32>, u8, H<'gc>>",
 }
 NEG_OPT = {
